@@ -42,6 +42,10 @@ def all_btree_pages(data, u):
     return res
 
 
+# over-long (non-canonical) varints: small values written in more bytes than they need
+NONCANON = [b"\x80\x01", b"\x80\x00", b"\x80\x02", b"\x80\x05", b"\x80\x80\x01", b"\x80\x80\x80\x03", b"\x80" * 8 + b"\x02"]
+
+
 def mutate(rng, data, u):
     """one mutant: (bytes, description)"""
     b = bytearray(data)
@@ -92,13 +96,13 @@ def mutate(rng, data, u):
         pl = sqlfmt.get_varint(bytes(b[pos:pos + 9])) or (0, 1)
         if kind == "paylen" or kind == "ptr":
             put(pos, rng.choice([NEG9, BIG9, b"\x00", b"\x7f", b"\x81\x00", b"\xff\x7f", sqlfmt.put_varint(pl[0] + 1), sqlfmt.put_varint(max(0, pl[0] - 1)),
-                                 sqlfmt.put_varint(u), sqlfmt.put_varint(u * 3), sqlfmt.put_varint(2 ** 31)]))
+                                 sqlfmt.put_varint(u), sqlfmt.put_varint(u * 3), sqlfmt.put_varint(2 ** 31)] + NONCANON))
             return bytes(b), "page %d cell %d payload length" % (n, ci)
         pos2 = pos + pl[1]
         if t == 13:
             rl = sqlfmt.get_varint(bytes(b[pos2:pos2 + 9])) or (0, 1)
             if kind == "rowid":
-                put(pos2, rng.choice([NEG9, BIG9, b"\x00", b"\x7f"]))
+                put(pos2, rng.choice([NEG9, BIG9, b"\x00", b"\x7f"] + NONCANON))
                 return bytes(b), "page %d cell %d rowid" % (n, ci)
             pos2 += rl[1]
         local = sqlfmt.local_size(pl[0], u, t != 13) if pl[0] >= 0 else 0
@@ -114,12 +118,12 @@ def mutate(rng, data, u):
                 return bytes(b), "overflow page %d next pointer" % o
             kind = "hdrsize"
         if kind == "hdrsize":
-            put(pos2, rng.choice([NEG9, BIG9, b"\x00", b"\x01", b"\x7f", b"\xff\x7f", b"\x81\x00"]))
+            put(pos2, rng.choice([NEG9, BIG9, b"\x00", b"\x01", b"\x7f", b"\xff\x7f", b"\x81\x00"] + NONCANON))
             return bytes(b), "page %d cell %d record header size" % (n, ci)
         if kind in ("serial", "rowid"):
             hs = sqlfmt.get_varint(bytes(b[pos2:pos2 + 9])) or (1, 1)
             where = pos2 + hs[1] + rng.randrange(max(1, min(6, hs[0] - hs[1])))
-            put(where, rng.choice([NEG9, BIG9, b"\x0a", b"\x0b", b"\x07", b"\x06", b"\x7f", b"\xff\x7f", b"\x00", b"\x0c", b"\x0d"]))
+            put(where, rng.choice([NEG9, BIG9, b"\x0a", b"\x0b", b"\x07", b"\x06", b"\x7f", b"\xff\x7f", b"\x00", b"\x0c", b"\x0d"] + NONCANON))
             return bytes(b), "page %d cell %d serial type" % (n, ci)
     if kind == "header":
         off = rng.choice([16, 17, 18, 19, 20, 21, 28, 29, 30, 31, 44, 47, 56, 59] + list(range(0, 100, 7)))
